@@ -242,7 +242,13 @@ fn gen_use(g: &mut G, macros: &[Macro], depth: u32) -> String {
     match &m.params {
         None => m.name.clone(),
         Some(p) => {
-            let args: Vec<String> = p.iter().map(|_| gen_arg(g, macros, depth)).collect();
+            let mut args: Vec<String> = p.iter().map(|_| gen_arg(g, macros, depth)).collect();
+            // a call nested in a call of the same macro: the result of the first replacement round
+            // contains the name again
+            if !args.is_empty() && depth > 0 && g.chance(1, 5) {
+                let inner: Vec<String> = p.iter().map(|_| format!("{}", g.below(9))).collect();
+                args[0] = format!("{}({})", m.name, inner.join(","));
+            }
             let sep = if g.chance(1, 2) { ", " } else { "," };
             format!("{}({})", m.name, args.join(sep))
         }
@@ -257,7 +263,22 @@ pub fn gen_case(g: &mut G, ex: &Excl) -> Case {
         labels.push("more-than-100-macros".to_string());
     }
     let mut macros: Vec<Macro> = vec![];
+    // macros that an earlier body names before they are defined (forward reference): plain values
+    let mut forward_targets: Vec<usize> = vec![];
     for i in 0..n {
+        if forward_targets.contains(&i) {
+            macros.push(Macro { name: format!("N{}", i + 1), params: None, body: format!("{}", g.below(50)) });
+            continue;
+        }
+        if i + 1 < n && g.chance(1, 12) {
+            let j = i + 1 + g.below(n - i - 1);
+            forward_targets.push(j);
+            if !labels.contains(&"forward-reference".to_string()) {
+                labels.push("forward-reference".to_string());
+            }
+            macros.push(Macro { name: format!("N{}", i + 1), params: None, body: format!("(N{}+1)", j + 1) });
+            continue;
+        }
         let fl = g.chance(2, 5);
         let name = format!("{}{}", if fl { "F" } else { "N" }, i + 1);
         if fl {
